@@ -1,16 +1,22 @@
 """C12: auto-responses depend on the output text, not on how it was chunked.
 
-A case = watchers + a schedule of reads [(stream, chunk), ...] + how the watchers
-are driven:
+A case = configured watchers (run.watchers) + per-call watchers (or none) + one or
+two successive calls reusing the same watcher objects / list, each with a schedule
+of reads [(stream, chunk), ...], run options (warn, hide) + how the watchers are
+driven:
   direct : the real Responder/FailingResponder objects, one worker thread per
            stream (thread-local state), the harness plays Runner.respond's loop;
   run    : the real Runner.run / _handle_output / respond through a scripted
            Runner subclass whose read_proc_stdout/stderr hand out the chunks in
            schedule order (every read gated), recording the bytes that reach
            _write_proc_stdin and the exception out of run();
-  sudo   : the same runner through Context._sudo (its own FailingResponder,
-           Failure -> AuthFailure).
+  sudo   : the same runner through Context._sudo (its own FailingResponder with the
+           per-call or configured password, Failure -> AuthFailure).
+extra_checks: a few real Local runs (pipes and pty) of a shell script that prompts,
+reads the answers from its stdin and reports them (labelled tests).
 """
+import contextlib
+import io
 import itertools
 import queue
 import re
@@ -37,6 +43,9 @@ POOL = [
     [["any"], ["l", "\n"]],
     L("b\n"),
     [["l", "b"], ["notin", "b"]],
+    L("\r\n"),
+    [["any"], ["l", "\r"]],
+    L("B"),
 ]
 SENTINELS = [L("b"), L("bb"), L("\n"), L("ba"), [["l", "b"], ["any"]]]
 
@@ -127,10 +136,21 @@ def interleave(rng, a, b):
 # --------------------------------------------------------------------------
 # drivers of the real code
 # --------------------------------------------------------------------------
-def make_watchers(case):
+def norm(case):
+    """accept the first-generation case format (one call, no configured watchers)"""
+    if "calls" in case:
+        return case
+    c = {"how": case["how"], "cfg_watchers": [], "watchers": case.get("watchers"),
+         "sudo": None, "opts": {}, "calls": [case["sched"]]}
+    if case.get("sudo"):
+        c["sudo"] = {"prompt": case["sudo"]["prompt"], "password": case["sudo"].get("password")}
+    return c
+
+
+def make_watchers(specs):
     from invoke.watchers import FailingResponder, Responder
     ws = []
-    for w in case["watchers"]:
+    for w in specs:
         if w["kind"] == "resp":
             ws.append(Responder(regex(w["pattern"]), w["response"]))
         else:
@@ -138,12 +158,10 @@ def make_watchers(case):
     return ws
 
 
-def drive_direct(case):
-    """the watcher objects themselves; one worker thread per stream so that the
-    threading.local state is exercised as in a real run"""
+def drive_direct(ws, sched):
+    """the watcher objects themselves; one worker thread per stream (new threads for
+    every call) so that the threading.local state is exercised as in a real run"""
     from invoke.exceptions import ResponseNotAccepted
-    ws = make_watchers(case)
-    sched = case["sched"]
     inq = {0: queue.Queue(), 1: queue.Queue()}
     outq = queue.Queue()
 
@@ -276,27 +294,30 @@ def scripted_runner_class():
     return Scripted
 
 
-def drive_runner(case):
-    from invoke import Config, Context
+def drive_runner(ctx, kw_list, case, sched):
+    """one call of Runner.run / Context._sudo on the shared Context / watcher list"""
     from invoke.exceptions import ResponseNotAccepted
     Scripted = scripted_runner_class()
-    sched = [(s, c) for s, c in case["sched"]]
+    sched = [(s, c) for s, c in sched]
     sudo = case.get("sudo")
-    if sudo:
-        cfg = Config(overrides={"sudo": {"password": sudo["password"], "prompt": sudo["prompt"]}})
-    else:
-        cfg = Config()
-    ctx = Context(cfg)
+    opts = case.get("opts") or {}
     r = Scripted(ctx, sched)
-    ws = make_watchers(case)
+    kwargs = {"in_stream": False, "hide": opts.get("hide", True)}
+    if "warn" in opts:
+        kwargs["warn"] = opts["warn"]
+    if kw_list is not None:
+        kwargs["watchers"] = kw_list
+    if sudo and "kw_password" in sudo:
+        kwargs["password"] = sudo["kw_password"]
     exc = None
-    try:
-        if sudo:
-            ctx._sudo(r, "x", in_stream=False, hide=True, watchers=ws)
-        else:
-            r.run("x", in_stream=False, hide=True, watchers=ws)
-    except Exception as e:
-        exc = type(e).__name__
+    with contextlib.redirect_stdout(io.StringIO()), contextlib.redirect_stderr(io.StringIO()):
+        try:
+            if sudo:
+                ctx._sudo(r, "x", **kwargs)
+            else:
+                r.run("x", **kwargs)
+        except Exception as e:
+            exc = type(e).__name__
     for t in getattr(r, "threads", {}).values():
         t.join(10)
     writes = [[] for _ in sched]
@@ -319,99 +340,114 @@ def drive_runner(case):
     return {"writes": writes, "raised": raised, "exc": exc, "died_at": died_at}
 
 
+def run_case(case):
+    case = norm(case)
+    cfg_objs = make_watchers(case["cfg_watchers"])
+    kw_list = make_watchers(case["watchers"]) if case["watchers"] is not None else None
+    out = []
+    if case["how"] == "direct":
+        ws = kw_list if kw_list is not None else cfg_objs
+        for sched in case["calls"]:
+            out.append(drive_direct(ws, sched))
+        return out
+    from invoke import Config, Context
+    over = {"run": {"watchers": cfg_objs}}
+    if case.get("sudo"):
+        over["sudo"] = {"password": case["sudo"].get("password"), "prompt": case["sudo"]["prompt"]}
+    ctx = Context(Config(overrides=over))
+    for sched in case["calls"]:
+        out.append(drive_runner(ctx, kw_list, case, sched))
+    return out
+
+
 # --------------------------------------------------------------------------
 # independent reference used only for finding signatures / classification
 # --------------------------------------------------------------------------
 def all_watchers(case):
-    ws = list(case["watchers"])
-    if case.get("sudo"):
-        ws.append({"kind": "fail", "pattern": L(case["sudo"]["prompt"]),
-                   "response": case["sudo"]["password"] + "\n", "sentinel": L(SENTINEL)})
+    case = norm(case)
+    ws = list(case["watchers"] if case["watchers"] is not None else case["cfg_watchers"])
+    su = case.get("sudo")
+    if su:
+        pw = su["kw_password"] if "kw_password" in su else su.get("password")
+        ws.append({"kind": "fail", "pattern": L(su["prompt"]),
+                   "response": "%s\n" % (pw,), "sentinel": L(SENTINEL)})
     return ws
 
 
-def stream_reads(case, sid):
-    return [(i, c) for i, (s, c) in enumerate(case["sched"]) if s == sid]
+def stream_reads(sched, sid):
+    return [(i, c) for i, (s, c) in enumerate(sched) if s == sid]
 
 
 def spans(toks, text):
     return [(m.start(), m.end()) for m in re.finditer(regex(toks), text, re.S)]
 
 
-def sig_straddle(case, obs):
-    """(region of the former F-C12a) for some pattern or sentinel, an occurrence of the whole-text scan
-    is completed in a (delivered) read and another occurrence straddles the end
-    of that same read."""
-    for sid in (0, 1):
-        reads = stream_reads(case, sid)
-        if not reads:
-            continue
-        text = "".join(c for _, c in reads)
-        died = obs["died_at"][sid] if obs else None
-        pats = []
-        for w in all_watchers(case):
-            pats.append(w["pattern"])
-            if w["kind"] == "fail":
-                pats.append(w["sentinel"])
-        for toks in pats:
-            sp = spans(toks, text)
-            lo = 0
-            for idx, c in reads:
-                hi = lo + len(c)
-                if any(lo < e <= hi for _, e in sp) and any(s < hi < e for s, e in sp):
-                    return True
-                lo = hi
-                if died is not None and idx >= died:
-                    break
-    return False
-
-
-def sig_tried(case, obs):
-    """(region of the former F-C12b) in a read that is not the stream's first, a failing watcher's
-    sentinel is completed although that watcher has not answered in an earlier
-    read (the latched `tried` makes it raise all the same)."""
-    for sid in (0, 1):
-        reads = stream_reads(case, sid)
-        died = obs["died_at"][sid] if obs else None
-        for w in all_watchers(case):
-            if w["kind"] != "fail":
+def sig_straddle(case, obs=None):
+    """(region of the former F-C12a) for some pattern or sentinel, an occurrence of
+    the whole-text scan is completed in a read and another occurrence straddles the
+    end of that same read."""
+    case = norm(case)
+    pats = []
+    for w in all_watchers(case):
+        pats.append(w["pattern"])
+        if w["kind"] == "fail":
+            pats.append(w["sentinel"])
+    for sched in case["calls"]:
+        for sid in (0, 1):
+            reads = stream_reads(sched, sid)
+            if not reads:
                 continue
-            before = ""
-            responded = False
-            for k, (idx, c) in enumerate(reads):
-                after = before + c
-                new_s = len(re.findall(regex(w["sentinel"]), after, re.S)) - \
-                    len(re.findall(regex(w["sentinel"]), before, re.S))
-                new_p = len(re.findall(regex(w["pattern"]), after, re.S)) - \
-                    len(re.findall(regex(w["pattern"]), before, re.S))
-                if k > 0 and new_s > 0 and not responded:
-                    return True
-                responded = responded or new_p > 0
-                before = after
-                if died is not None and idx >= died:
-                    break
+            text = "".join(c for _, c in reads)
+            for toks in pats:
+                sp = spans(toks, text)
+                lo = 0
+                for idx, c in reads:
+                    hi = lo + len(c)
+                    if any(lo < e <= hi for _, e in sp) and any(s < hi < e for s, e in sp):
+                        return True
+                    lo = hi
     return False
 
 
 EXN = {"ResponseNotAccepted": "XResponseNotAccepted", "Failure": "XFailure", "AuthFailure": "XAuthFailure"}
 VIA = {"direct": "Direct", "run": "ViaRun", "sudo": "ViaSudo"}
+RESPONSES = ["y", "n\n", "pw\n"]
+
+
+def chosen_cuts(rng, text, k=3):
+    """a few chunkings of a long text: whole, and random cut sets"""
+    yield [text]
+    for _ in range(k):
+        n = rng.choice([1, 2, 3])
+        cuts = sorted(set(rng.randrange(1, len(text)) for _ in range(n)))
+        out, last = [], 0
+        for c in cuts:
+            out.append(text[last:c])
+            last = c
+        out.append(text[last:])
+        yield out
 
 
 class C12(Prop):
     id = "C12"
     corr_module = "Corr.C12Corr"
-    quick_n = 2600
+    quick_n = 2900
     thorough_n = 30000
     shard_size = 400
-    rule = ("texts over {a, b, newline} (length <= 7; sudo cases: prompt/sentinel/filler tokens), random "
-            "compositions into reads, 1-2 streams randomly interleaved, 1-3 watchers from a pool of 10 "
-            "fixed-length patterns (literals incl. self-overlapping, '.', classes, negated classes, newline "
-            "spans), 35% FailingResponder; driven through the watcher objects, Runner.run and Context.sudo. "
-            "non-trivial = some watcher pattern occurs in its stream's text and that stream has >= 2 reads; "
-            "thorough adds every composition of every text of length <= 6 (and of every 27th text of length 7) "
-            "x the patterns of the pool occurring in it (single Responder), and length <= 4 x 4 failing pairs")
+    rule = ("texts over {a, b, newline} plus, with lower weight, carriage return (CRLF cut between CR and LF) "
+            "and an upper-case letter (length <= 7), random compositions into reads, 1-2 streams randomly "
+            "interleaved, 1-3 watchers from a pool of 13 fixed-length patterns (literals incl. "
+            "self-overlapping, '.', classes, negated classes, newline / CRLF spans), 35% FailingResponder; "
+            "watchers given per call, configured under run.watchers, or both; 1-2 successive calls reusing "
+            "the same watcher objects and list; warn / hide varied; sudo with configured and per-call "
+            "password; long texts (600-1100 filler characters around the occurrences) with a few chosen "
+            "cuts; driven through the watcher objects, Runner.run and Context.sudo.  non-trivial = some "
+            "watcher pattern occurs in a stream's text and that stream has >= 2 reads.  thorough adds every "
+            "composition of every text of length <= 6 over {a,b,newline} (and every 27th of length 7) x the "
+            "patterns occurring in it, every composition of length <= 5 over {a, CR, LF}, and length <= 4 x 4 "
+            "failing pairs")
     trusted_base = [
-        "Coq 8.16.1 kernel + vm_compute (shard evaluation, refutation witnesses)",
+        "Coq 8.16.1 kernel + vm_compute (shard evaluation, witnesses)",
         "hand-written models coq/Model/RegexFam.v (re.findall on the fixed-length family; checked against the "
         "real re module in every case) and coq/Model/WatchModel.v, tied to invoke/watchers.py + "
         "Runner.respond/_handle_output + Context._sudo by differential execution (this run)",
@@ -424,6 +460,7 @@ class C12(Prop):
         "reads are delivered one at a time (the schedule is a total order of reads; true thread preemption "
         "inside Runner.respond is not modelled)",
         "ASCII text; decoding of reads is C02's business",
+        "real-pipe delivery (extra_checks) is tested on a handful of scripts, not proved",
     ]
     not_modelled = ["regex features beyond the family (groups, alternation, repetition, anchors)",
                     "writes to the child's stdin racing between the two IO threads",
@@ -434,7 +471,7 @@ class C12(Prop):
         ws = []
         for _ in range(rng.choice([k for k in [1, 1, 2, 2, 3] if k <= nmax])):
             p = rng.choice(POOL)
-            r = rng.choice(["y", "n\n", "pw\n"])
+            r = rng.choice(RESPONSES)
             if rng.random() < 0.35:
                 ws.append({"kind": "fail", "pattern": p, "response": r, "sentinel": rng.choice(SENTINELS)})
             else:
@@ -442,31 +479,87 @@ class C12(Prop):
         return ws
 
     def _text(self, rng, maxlen=7):
-        n = rng.choice([0, 1, 2, 3, 3, 4, 4, 5, 5, 6, 6, 7, 7])
-        n = min(n, maxlen)
-        # biased towards 'a'/'b' so that patterns occur often
-        return "".join(rng.choice("aabb\na") for _ in range(n))
+        n = min(rng.choice([0, 1, 2, 3, 3, 4, 4, 5, 5, 6, 6, 7, 7]), maxlen)
+        alpha = rng.choice(["aabb\na", "aabb\na", "ab\r\n\n\r", "abBb\na"])
+        return "".join(rng.choice(alpha) for _ in range(n))
 
-    def gen_one(self, rng):
-        k = rng.random()
-        if k < 0.12:
-            prompt = rng.choice(["P:", "ab", "[sudo] pw: "])
-            toks = [prompt, SENTINEL, "x", "Sorry", ", try again.\n", prompt[:1], "\n"]
+    def _sched(self, rng, two=0.5):
+        a = random_split(rng, self._text(rng))
+        b = random_split(rng, self._text(rng)) if rng.random() < two else []
+        return interleave(rng, a, b)
+
+    def _opts(self, rng):
+        o = {}
+        if rng.random() < 0.5:
+            o["warn"] = rng.choice([True, False])
+        if rng.random() < 0.4:
+            o["hide"] = rng.choice([False, True, "out", None])
+        return o
+
+    def gen_sudo(self, rng):
+        prompt = rng.choice(["P:", "ab", "[sudo] pw: "])
+        toks = [prompt, SENTINEL, "x", "Sorry", ", try again.\n", prompt[:1], "\n"]
+
+        def sched():
             text = "".join(rng.choice(toks) for _ in range(rng.randint(1, 4)))
             a = random_split(rng, text)
             b = random_split(rng, "".join(rng.choice(toks) for _ in range(rng.randint(0, 2)))) \
                 if rng.random() < 0.4 else []
-            ws = self._watchers(rng, 1) if rng.random() < 0.4 else []
-            return {"how": "sudo", "watchers": ws, "sudo": {"prompt": prompt, "password": "pw"},
-                    "sched": interleave(rng, a, b)}
+            return interleave(rng, a, b)
+        su = {"prompt": prompt, "password": rng.choice(["pw", "pw", None, "cfgpw"])}
+        if rng.random() < 0.45:
+            su["kw_password"] = rng.choice(["kwpw", "kwpw", None])
+        k = rng.random()
+        cfg_ws = self._watchers(rng, 1) if k < 0.35 else []
+        kw_ws = self._watchers(rng, 1) if 0.2 < k < 0.55 else None
+        calls = [sched()] + ([sched()] if rng.random() < 0.4 else [])
+        return {"how": "sudo", "cfg_watchers": cfg_ws, "watchers": kw_ws, "sudo": su,
+                "opts": self._opts(rng), "calls": calls}
+
+    def gen_long(self, rng):
+        n = rng.choice([600, 1100])
+        p = rng.choice([L("ab"), L("aba"), [["l", "a"], ["any"]], L("b\n")])
+        occs = ["ab", "aba", "b\n", "abab", "a"]
+        text = rng.choice(occs) + "x" * n + rng.choice(occs + [""]) + rng.choice(["", "x" * 40])
+        if rng.random() < 0.3:
+            prompt = "Password: "
+            text = prompt + "x" * n + rng.choice(["", prompt])
+            return {"how": "sudo", "cfg_watchers": [], "watchers": None,
+                    "sudo": {"prompt": prompt, "password": "pw"}, "opts": {},
+                    "calls": [[[0, c] for c in cut] for cut in chosen_cuts(rng, text, 1)]}
+        w = {"kind": "resp", "pattern": p, "response": "y"}
+        return {"how": rng.choice(["direct", "run"]), "cfg_watchers": [], "watchers": [w], "sudo": None,
+                "opts": {}, "calls": [[[0, c] for c in cut] for cut in chosen_cuts(rng, text, 1)]}
+
+    def gen_one(self, rng):
+        k = rng.random()
+        if k < 0.14:
+            return self.gen_sudo(rng)
+        if k < 0.17:
+            return self.gen_long(rng)
         how = "direct" if k < 0.5 else "run"
-        a = random_split(rng, self._text(rng))
-        b = random_split(rng, self._text(rng)) if rng.random() < 0.5 else []
-        return {"how": how, "watchers": self._watchers(rng), "sudo": None, "sched": interleave(rng, a, b)}
+        calls = [self._sched(rng)] + ([self._sched(rng, 0.3)] if rng.random() < 0.25 else [])
+        if how == "direct":
+            return {"how": how, "cfg_watchers": [], "watchers": self._watchers(rng), "sudo": None,
+                    "opts": {}, "calls": calls}
+        m = rng.random()
+        cfg_ws = self._watchers(rng, 2) if m < 0.35 else []
+        kw_ws = self._watchers(rng) if m > 0.2 else None
+        if rng.random() < 0.04:
+            kw_ws = []
+        return {"how": how, "cfg_watchers": cfg_ws, "watchers": kw_ws, "sudo": None,
+                "opts": self._opts(rng), "calls": calls}
 
     def generate(self, rng, tier, n):
         for _ in range(n):
             yield self.gen_one(rng)
+
+    def _single(self, p, comp, kind="resp", sen=None):
+        w = {"kind": kind, "pattern": p, "response": "y"}
+        if sen is not None:
+            w["sentinel"] = sen
+        return {"how": "direct", "cfg_watchers": [], "watchers": [w], "sudo": None, "opts": {},
+                "calls": [[[0, c] for c in comp]]}
 
     def enumerate_small(self, tier):
         nmax = 6 if tier == "thorough" else 4
@@ -477,10 +570,8 @@ class C12(Prop):
                     if len(comp) < 2 and n > 1:
                         continue
                     for p in POOL:
-                        if not re.search(regex(p), s, re.S):
-                            continue
-                        yield {"how": "direct", "watchers": [{"kind": "resp", "pattern": p, "response": "y"}],
-                               "sudo": None, "sched": [[0, c] for c in comp]}
+                        if re.search(regex(p), s, re.S):
+                            yield self._single(p, comp)
         if tier == "thorough":
             # length 7: every 27th text, all 64 compositions
             for k, tup in enumerate(itertools.product(ALPHA, repeat=7)):
@@ -490,8 +581,17 @@ class C12(Prop):
                 for comp in compositions(s):
                     for p in POOL:
                         if re.search(regex(p), s, re.S):
-                            yield {"how": "direct", "watchers": [{"kind": "resp", "pattern": p, "response": "y"}],
-                                   "sudo": None, "sched": [[0, c] for c in comp]}
+                            yield self._single(p, comp)
+        # carriage returns: every composition of every text over {a, CR, LF}
+        for n in range(2, (5 if tier == "thorough" else 3) + 1):
+            for tup in itertools.product("a\r\n", repeat=n):
+                s = "".join(tup)
+                if "\r" not in s:
+                    continue
+                for comp in compositions(s):
+                    for p in (L("\r\n"), [["any"], ["l", "\n"]], [["any"], ["l", "\r"]], L("\n"), [["notin", "a"]]):
+                        if re.search(regex(p), s, re.S):
+                            yield self._single(p, comp)
         fmax = 4 if tier == "thorough" else 3
         pairs = [(L("a"), L("b")), (L("ab"), L("b")), (L("a"), L("ba")), ([["any"]], L("\n"))]
         for n in range(2, fmax + 1):
@@ -499,101 +599,198 @@ class C12(Prop):
                 s = "".join(tup)
                 for comp in compositions(s):
                     for p, sen in pairs:
-                        yield {"how": "direct", "sudo": None,
-                               "watchers": [{"kind": "fail", "pattern": p, "response": "y", "sentinel": sen}],
-                               "sched": [[0, c] for c in comp]}
+                        yield self._single(p, comp, "fail", sen)
 
     # ---- implementation ----------------------------------------------------
     def run_impl(self, case):
-        obs = drive_direct(case) if case["how"] == "direct" else drive_runner(case)
+        case = norm(case)
+        calls = run_case(case)
         occ = []
         seen = set()
-        for sid in (0, 1):
-            text = "".join(c for _, c in stream_reads(case, sid))
-            for w in all_watchers(case):
-                for toks in [w["pattern"]] + ([w["sentinel"]] if w["kind"] == "fail" else []):
-                    key = (regex(toks), text)
-                    if key in seen:
-                        continue
-                    seen.add(key)
-                    occ.append([toks, text, len(re.findall(regex(toks), text, re.S))])
-        obs["occ"] = occ
-        return obs
+        for sched in case["calls"]:
+            for sid in (0, 1):
+                text = "".join(c for _, c in stream_reads(sched, sid))
+                for w in all_watchers(case):
+                    for toks in [w["pattern"]] + ([w["sentinel"]] if w["kind"] == "fail" else []):
+                        key = (regex(toks), text)
+                        if key in seen:
+                            continue
+                        seen.add(key)
+                        occ.append([toks, text, len(re.findall(regex(toks), text, re.S))])
+        return {"calls": calls, "occ": occ}
 
     def to_coq(self, case, obs):
-        ws = ct.lst([watcher_term(w) for w in case["watchers"]])
-        sudo = ct.opt(ct.pair(ct.s(case["sudo"]["prompt"]), ct.s(case["sudo"]["password"]))
-                      if case.get("sudo") else None)
-        sched = ct.lst([ct.pair(ct.b(bool(s)), ct.s(c)) for s, c in case["sched"]])
-        writes = ct.lst([ct.strs(w) for w in obs["writes"]])
-        raised = ct.pair(ct.b(obs["raised"][0]), ct.b(obs["raised"][1]))
-        exc = ct.opt(EXN.get(obs["exc"], "XOther") if obs["exc"] is not None else None)
+        case = norm(case)
+        cfg = ct.lst([watcher_term(w) for w in case["cfg_watchers"]])
+        kw = ct.opt(ct.lst([watcher_term(w) for w in case["watchers"]]) if case["watchers"] is not None else None)
+        su = case.get("sudo")
+        if su:
+            sudo = "(Some (mkSudo %s %s %s))" % (
+                ct.s(su["prompt"]), ct.opt(ct.s(su["password"]) if su.get("password") is not None else None),
+                ct.opt(ct.opt(ct.s(su["kw_password"]) if su["kw_password"] is not None else None)
+                       if "kw_password" in su else None))
+        else:
+            sudo = "None"
+        calls = []
+        for sched, o in zip(case["calls"], obs["calls"]):
+            calls.append("(mkCall %s %s %s %s)" % (
+                ct.lst([ct.pair(ct.b(bool(s)), ct.s(c)) for s, c in sched]),
+                ct.lst([ct.strs(w) for w in o["writes"]]),
+                ct.pair(ct.b(o["raised"][0]), ct.b(o["raised"][1])),
+                ct.opt(EXN.get(o["exc"], "XOther") if o["exc"] is not None else None)))
         occ = ct.lst([ct.pair(ct.pair(pat_term(t), ct.s(x)), ct.n(k)) for t, x, k in obs["occ"]])
-        return "(mk %s %s %s %s %s %s %s %s)" % (ws, sudo, VIA[case["how"]], sched, writes, raised, exc, occ)
+        return "(mk %s %s %s %s %s %s)" % (cfg, kw, sudo, VIA[case["how"]], ct.lst(calls), occ)
 
     def nontrivial(self, case, obs):
-        for sid in (0, 1):
-            reads = stream_reads(case, sid)
-            if len(reads) < 2:
-                continue
-            text = "".join(c for _, c in reads)
-            if any(re.search(regex(w["pattern"]), text, re.S) for w in all_watchers(case)):
-                return True
+        case = norm(case)
+        for sched in case["calls"]:
+            for sid in (0, 1):
+                reads = stream_reads(sched, sid)
+                if len(reads) < 2:
+                    continue
+                text = "".join(c for _, c in reads)
+                if any(re.search(regex(w["pattern"]), text, re.S) for w in all_watchers(case)):
+                    return True
         return False
 
     def classify(self, case, obs):
-        streams = len({s for s, _ in case["sched"]})
+        case = norm(case)
+        streams = max(len({s for s, _ in sched}) for sched in case["calls"])
         kind = "fail" if any(w["kind"] == "fail" for w in all_watchers(case)) else "resp"
-        tag = "%s/%dstream/%s" % (case["how"], streams, kind)
-        if obs["exc"]:
+        tag = "%s/%dcall/%dstream/%s" % (case["how"], len(case["calls"]), streams, kind)
+        if case["cfg_watchers"]:
+            tag += "/cfgw"
+        if (case.get("opts") or {}).get("warn"):
+            tag += "/warn"
+        if any(o["exc"] for o in obs["calls"]):
             tag += "/raised"
-        if sig_straddle(case, obs):
-            tag += "/straddle"          # region of the former F-C12a
-        if sig_tried(case, obs):
-            tag += "/sentinel-before-response"   # region of the former F-C12b
+        if sig_straddle(case):
+            tag += "/straddle"
+        if any(len(c) > 500 for sched in case["calls"] for _, c in sched):
+            tag += "/long"
         return tag
 
     def finding_of(self, case, obs):
-        # F-C12a / F-C12b are fixed in /repo (28f435d, 380f659): nothing is attributed
-        # any more; sig_straddle / sig_tried only label the input distribution.
+        # F-C12a / F-C12b / F-C12c are fixed in /repo: nothing is attributed any more
         return None
 
     def shrink_candidates(self, case):
-        sched = case["sched"]
-        ws = case["watchers"]
-        for i in range(len(ws)):
-            if len(ws) > 1 or case.get("sudo"):
-                yield dict(case, watchers=ws[:i] + ws[i + 1:])
-        if case["how"] == "run":
-            yield dict(case, how="direct")
-        for i in range(len(sched)):
-            yield dict(case, sched=sched[:i] + sched[i + 1:])
-        for i in range(len(sched)):
-            for j in range(i + 1, len(sched)):
-                if sched[j][0] == sched[i][0]:
-                    merged = sched[:i] + [[sched[i][0], sched[i][1] + sched[j][1]]] + sched[i + 1:j] + sched[j + 1:]
-                    yield dict(case, sched=merged)
-                    break
-        for i, (s, c) in enumerate(sched):
-            for k in range(len(c)):
-                if len(c) > 1:
-                    yield dict(case, sched=sched[:i] + [[s, c[:k] + c[k + 1:]]] + sched[i + 1:])
-        for i, w in enumerate(ws):
-            if w["kind"] == "fail":
-                yield dict(case, watchers=ws[:i] + [{"kind": "resp", "pattern": w["pattern"],
-                                                     "response": w["response"]}] + ws[i + 1:])
+        case = norm(case)
+        calls = case["calls"]
+        if len(calls) > 1:
+            for i in range(len(calls)):
+                yield dict(case, calls=calls[:i] + calls[i + 1:])
+        for key in ("watchers", "cfg_watchers"):
+            ws = case[key]
+            if not ws:
+                continue
+            for i in range(len(ws)):
+                yield dict(case, **{key: ws[:i] + ws[i + 1:]})
+            for i, w in enumerate(ws):
+                if w["kind"] == "fail":
+                    yield dict(case, **{key: ws[:i] + [{"kind": "resp", "pattern": w["pattern"],
+                                                        "response": w["response"]}] + ws[i + 1:]})
+        if case.get("opts"):
+            yield dict(case, opts={})
+        if case["how"] == "run" and not case["cfg_watchers"] and case["watchers"] is not None:
+            yield dict(case, how="direct", opts={})
+        for ci, sched in enumerate(calls):
+            def put(new):
+                return dict(case, calls=calls[:ci] + [new] + calls[ci + 1:])
+            for i in range(len(sched)):
+                yield put(sched[:i] + sched[i + 1:])
+            for i in range(len(sched)):
+                for j in range(i + 1, len(sched)):
+                    if sched[j][0] == sched[i][0]:
+                        yield put(sched[:i] + [[sched[i][0], sched[i][1] + sched[j][1]]]
+                                  + sched[i + 1:j] + sched[j + 1:])
+                        break
+            for i, (sd, c) in enumerate(sched):
+                if len(c) > 40:
+                    # long filler: halve runs of x
+                    m = re.search("x{20,}", c)
+                    if m:
+                        half = c[:m.start()] + "x" * ((m.end() - m.start()) // 2) + c[m.end():]
+                        yield put(sched[:i] + [[sd, half]] + sched[i + 1:])
+                    continue
+                for k in range(len(c)):
+                    if len(c) > 1:
+                        yield put(sched[:i] + [[sd, c[:k] + c[k + 1:]]] + sched[i + 1:])
 
     def mutate(self, case, rng):
+        case = norm(case)
         for _ in range(40):
             c = dict(case)
-            texts = {0: "".join(x for s, x in case["sched"] if s == 0),
-                     1: "".join(x for s, x in case["sched"] if s == 1)}
-            if rng.random() < 0.3:
-                texts[rng.choice([0, 1])] += rng.choice(["a", "b", "ab", "\n"])
-            c["sched"] = interleave(rng, random_split(rng, texts[0]), random_split(rng, texts[1]))
+            new_calls = []
+            for sched in case["calls"]:
+                texts = {0: "".join(x for s, x in sched if s == 0), 1: "".join(x for s, x in sched if s == 1)}
+                if rng.random() < 0.3:
+                    texts[rng.choice([0, 1])] += rng.choice(["a", "b", "ab", "\n"])
+                new_calls.append(interleave(rng, random_split(rng, texts[0]), random_split(rng, texts[1])))
+            c["calls"] = new_calls
             if rng.random() < 0.3 and case["how"] != "sudo":
                 c["watchers"] = self._watchers(rng)
             yield c
+
+    # ---- real pipes ----------------------------------------------------------
+    def extra_checks(self, tier, seed):
+        return [real_pipe_checks()]
+
+
+def real_pipe_checks():
+    """TESTS (not proofs): real Local runs; the script prompts, reads answers from its
+    stdin, then waits briefly for anything further and reports what it got."""
+    from invoke import Config, Context
+    from invoke.exceptions import Failure
+    from invoke.watchers import FailingResponder, Responder
+    tail = "; read -t 0.4 extra; echo \"extra=[$extra]\""
+    tests = [
+        ("two prompts, two responders",
+         "printf 'P1:'; read a; printf 'P2:'; read b; echo \"got=$a,$b\"" + tail,
+         lambda: [Responder("P1:", "one\n"), Responder("P2:", "two\n")], "got=one,two", None),
+        ("same prompt three times",
+         "printf 'P:'; read a; printf 'P:'; read b; printf 'P:'; read c; echo \"got=$a,$b,$c\"" + tail,
+         lambda: [Responder("P:", "x\n")], "got=x,x,x", None),
+        ("prompt on stderr, then stdout",
+         "printf 'E:' >&2; read a; printf 'O:'; read b; echo \"got=$a,$b\"" + tail,
+         lambda: [Responder("E:", "e\n"), Responder("O:", "o\n")], "got=e,o", None),
+        ("two occurrences in one write",
+         "printf 'P:P:'; read a; read b; echo \"got=$a,$b\"" + tail,
+         lambda: [Responder("P:", "x\n")], "got=x,x", None),
+        ("prompt written in two pieces",
+         "printf 'Pass'; sleep 0.2; printf 'word:'; read a; echo \"got=$a\"" + tail,
+         lambda: [Responder("Password:", "s3\n")], "got=s3", None),
+        ("failing responder, sentinel after the answer",
+         "printf 'P:'; read a; echo 'Sorry'; read -t 0.5 b; echo end",
+         lambda: [FailingResponder("P:", "pw\n", "Sorry")], None, "Failure"),
+        ("failing responder, warn=True",
+         "printf 'P:'; read a; echo 'Sorry'; read -t 0.5 b; echo end",
+         lambda: [FailingResponder("P:", "pw\n", "Sorry")], None, "Failure:warn"),
+    ]
+    failures, n = [], 0
+    for pty in (False, True):
+        for name, script, mk, want, wantexc in tests:
+            if pty and "stderr" in name:
+                continue
+            n += 1
+            c = Context(Config())
+            kw = {"warn": True} if wantexc == "Failure:warn" else {}
+            try:
+                r = c.run(script, watchers=mk(), hide=True, in_stream=False, pty=pty, timeout=20, **kw)
+                got_exc, out = None, r.stdout
+            except Failure as e:
+                got_exc, out = "Failure", e.result.stdout
+            except Exception as e:  # anything else
+                got_exc, out = type(e).__name__, ""
+            ok = (got_exc == (wantexc.split(":")[0] if wantexc else None))
+            if ok and want is not None:
+                ok = want in out and "extra=[]" in out
+            if not ok:
+                failures.append({"case": {"test": name, "pty": pty, "script": script},
+                                 "what": {"exception": got_exc, "stdout": out[-300:], "wanted": want or wantexc}})
+    return {"name": "real-pipe", "evaluations": n, "failures": failures,
+            "note": "TEST on real Local runs (pipes and pty): every answer reaches the child's stdin once, "
+                    "in order, nothing further arrives; a failing responder fails the run for every warn"}
 
 
 PROP = C12()
